@@ -118,9 +118,75 @@ def check_c13(prop, tier, seed, sd, t0):
     return rc
 
 
-CHECKS = {'C13': check_c13}
+# --------------------------------------------------------------------------
+# C19: the merge planner
+
+def check_c19(prop, tier, seed, sd, t0):
+    mcs = [vlib.model_check(sd, 'mergeplan', 'MergePlan.tla', 'MC_mergeplan.cfg', 900)]
+    if tier == 'thorough':
+        mcs.append(vlib.model_check(sd, 'mergeplan-live', 'MergePlan.tla', 'MC_mergeplan_live.cfg', 1800))
+    for m in mcs:
+        log('model checked %s: %d states' % (m['cfg'], m['states']))
+    probe = go_build(sd, './cmd/planprobe', 'planprobe')
+    tf = os.path.join(sd, 'plan.ndjson')
+    p = subprocess.run(['timeout', '1800', probe, '-out', tf, '-tier', tier, '-seed', str(seed)], stdout=subprocess.PIPE, stderr=subprocess.STDOUT, text=True)
+    if p.returncode != 0:
+        tail = p.stdout[-3000:]
+        if 'mergeplan' in tail and 'panic' in tail:
+            d = save_simple_replay(prop, seed, {'trace.ndjson': tf}, dict(note='planprobe died inside the planner', log=tail))
+            log('VIOLATION property=%s replay=%s' % (prop, d))
+            return 1
+        raise Inconclusive('planprobe failed: ' + tail)
+    res = run_trace_spec(sd, 'mergeplan', 'MergePlanTrace.tla', 'MergePlanTrace.cfg', tf, extra_modules=('MergePlan.tla',), timeout=2400)
+    if not res['ok']:
+        raise Inconclusive('MergePlanTrace did not consume the trace:\n' + res['tail'])
+    viols = [v for v in res['viols'] if v[0].startswith('C19_')]
+    divs = [v for v in res['viols'] if v[0].startswith('DIV_')]
+    notes = [v for v in res['viols'] if v[0].startswith('NOTE_')]
+    lines = open(tf).read().splitlines()
+    calls = sum(1 for l in lines if '"ev":"plan"' in l or '"ev":"hplan"' in l)
+    hists = sum(1 for l in lines if '"ev":"hreset"' in l)
+    rc = 0
+    if viols:
+        c, line, h = viols[0]
+        ctx = lines[max(0, line - 12):line]
+        d = os.path.join(VERIF, 'replays', prop, '%d-%s' % (int(time.time()), seed))
+        os.makedirs(d, exist_ok=True)
+        open(os.path.join(d, 'trace.ndjson'), 'w').write('\n'.join(ctx) + '\n')
+        json.dump(dict(property=prop, clause=c, line=line, kind='c19', event=json.loads(lines[line - 1])), open(os.path.join(d, 'meta.json'), 'w'), indent=1)
+        log('VIOLATION property=%s replay=%s' % (prop, d))
+        log('  %s at planner call on line %d: %s' % (c, line, lines[line - 1][:600]))
+        rc = 1
+    elif divs:
+        raise Inconclusive('the integer transcription of CalcBudget or the history binding disagrees with the code (%s)' % divs[:3])
+    distinct = len({l for l in lines if '"ev":"plan"' in l or '"ev":"hplan"' in l})
+    cov = dict(states=sum(m['states'] for m in mcs), transitions=sum(m['transitions'] for m in mcs),
+               traces_validated_against_impl=calls, samples=[json.loads(x) for x in lines[:3]] + [json.loads(x) for x in lines if '"ev":"hplan"' in x][:2],
+               evaluations=calls, distinct_nontrivial=distinct, histories=hists, no_progress_task_notes=len(notes),
+               rule='real mergeplan.Plan calls: (a) lists of 2..4 (thorough: 5) segments over the boundary size set {0,1,floor,floor+1,max/2-1,max/2,max/2+1,max-1,max,max+5} x '
+                    'deleted fraction {none, half, all} for three option sets (quick: every 7th list), (b) random lists of 2..1700 segments with duplicate sizes around the default '
+                    'options, (c) arrive/delete/plan/execute histories and run-to-convergence loops in which the real planner plans and the probe executes on sizes only; '
+                    'every call is checked by TLC against PlanOK (membership, disjointness, size bound, eligibility, width, budget post-condition with the integer Budget, '
+                    'determinism) and every history against convergence and rest-within-budget; distinct = distinct logged calls',
+               exhaustive=False, model_configs=mcs)
+    vlib.write_evidence(prop, tier, seed, 'model_checking', cov,
+                        ['the integer transcription of CalcBudget is exact for integer options and sizes < 2^31 (compared with the Go value on every call: DIV_budget_transcription)',
+                         'the float scoring only chooses among plans; it is not modelled'], time.time() - t0, len(viols))
+    log('%s %s: %d model states, %d planner calls in %d histories validated, %d violations, %d no-progress notes'
+        % (prop, tier, cov['states'], calls, hists, len(viols), len(notes)))
+    return rc
+
+
+CHECKS = {'C13': check_c13, 'C19': check_c19}
 
 MANIFEST_ENTRIES = {
+    'C19': ('TLC: MergePlan.tla -- the contract PlanOK of one Plan call plus the arrive/delete/plan/execute dynamics quantified over EVERY planner that satisfies '
+            'the contract and makes progress: at rest the mergeable population is within the (logarithmic) budget, every plan decreases a well-founded measure, '
+            'convergence (liveness, thorough tier). Code: the real mergeplan.Plan is called on exhaustive small and random large segment lists and along simulated '
+            'histories; MergePlanTrace checks each logged call against PlanOK (with an exact integer transcription of CalcBudget, itself compared with the Go value), '
+            'determinism, termination (watchdog), and each history for convergence within |segments| rounds and rest-within-budget.', '6 C19',
+            'TLA+ contract + dynamics specification (MergePlan) model-checked with TLC + validation of logged calls of the real planner (MergePlanTrace)',
+            SEQ_NOTE, 'model_checking'),
     'C13': ('TLC: DirFS.tla, the Persist protocol (open-create, lock, truncate, writes, fsync, close; cleanup on error) over a file system with a '
             'volatile cache, all sizes x pre-existing lengths x failure points x power loss at every step; invariants ExactOnSuccess, SyncedOnSuccess, '
             'DurableAfterSuccess, NothingLeftOnFailure (the same module with Truncate=FALSE or SyncOnPersist=FALSE yields counterexamples). Code: a '
